@@ -38,18 +38,20 @@ PROP = {
             "functions": ["DefragQueue::ingest_frame", "DefragQueue::init", "DefragQueue::received_all_frames",
                           "Fragmenter::send", "Fragmenter::set_mtu"],
             "harnesses": [
-                H("c17_ingest_wf_middle_f0", "P", what="ingest_frame step (middle frame, final size unknown): wf, emission shape", timeout=2400),
-                H("c17_ingest_wf_middle_f1", "P", what="ingest_frame step (middle frame, final size known): wf, emission shape, at-most-once", timeout=2400),
-                H("c17_ingest_wf_last", "P", what="ingest_frame step (last frame): wf, emission shape, at-most-once", timeout=2400),
-                H("c17_ingest_cover_middle_f0", "P", what="coverage coupling, middle frame, final unknown", timeout=2400),
-                H("c17_ingest_cover_middle_f1w0", "P", what="coverage coupling + intactness, middle frame, final known, first middle frame", timeout=2400),
-                H("c17_ingest_cover_middle_f1w1", "P", what="coverage coupling + intactness, middle frame, final and window known", timeout=2400),
-                H("c17_ingest_cover_last_w0", "P", what="coverage coupling, last frame first", timeout=2400),
-                H("c17_ingest_cover_last_w1", "P", what="coverage coupling + intactness, last frame after middle frames / duplicate last", timeout=2400),
+                H("c17_ingest_wf_middle_f0", "P", what="ingest_frame step (middle frame, final size unknown): wf, emission shape", timeout=3600),
+                H("c17_ingest_wf_middle_f1", "P", what="ingest_frame step (middle frame, final size known): wf, emission shape, at-most-once", timeout=3600),
+                H("c17_ingest_wf_last", "P", what="ingest_frame step (last frame): wf, emission shape, at-most-once", timeout=3600),
+                H("c17_ingest_cover_middle_f0", "P", what="coverage coupling, middle frame, final unknown", timeout=3600),
+                H("c17_ingest_cover_middle_f1w0", "P", what="coverage coupling + intactness, middle frame, final known, first middle frame", timeout=3600),
+                H("c17_ingest_cover_middle_f1w1", "P", what="coverage coupling + intactness, middle frame, final and window known", timeout=3600),
+                H("c17_ingest_cover_last_w0", "P", what="coverage coupling, last frame first", timeout=3600),
+                H("c17_ingest_cover_last_w1", "P", what="coverage coupling + intactness, last frame after middle frames / duplicate last", timeout=3600),
                 H("c17_init_resets", "P", what="init resets per-packet state"),
-                H("c17_honest_step_mid_f0", "P", what="honest completeness step: middle frame before the last frame", timeout=2400),
-                H("c17_honest_step_mid_f1", "P", what="honest completeness step: middle frame after the last frame", timeout=2400),
-                H("c17_honest_step_last", "P", what="honest completeness step: the last frame", timeout=2400),
+                H("c17_send_contract", "P", what="Fragmenter::send emits exactly the honest frames (loop <= 256 by operand width, unwinding assertions on)", timeout=3000),
+                H("c17_honest_step_mid_f0", "P", what="honest completeness step: middle frame before the last frame", timeout=3600),
+                H("c17_honest_step_mid_f1w0", "P", what="honest completeness step: first middle frame after the last frame", timeout=3600),
+                H("c17_honest_step_mid_f1w1", "P", what="honest completeness step: further middle frame after the last frame", timeout=3600),
+                H("c17_honest_step_last", "P", what="honest completeness step: the last frame", timeout=3600),
             ],
         },
     ],
